@@ -210,7 +210,14 @@ def mk_data(spec, n=None, sshape=None, dtype=None):
         x = np.broadcast_to(x, shape).copy()
     else:
         raise ValueError(kind)
-    return np.ascontiguousarray(x.astype(dt))
+    x = np.ascontiguousarray(x.astype(dt))
+    nf = spec.get("nonfinite")
+    if nf and x.size and x.dtype.kind in "fc":
+        # a few NaN / Inf samples ("every input signal" includes bad samples)
+        flat = x.reshape(-1)
+        for j, v in zip(nf["at"], [np.nan, np.inf, -np.inf]):
+            flat[j % flat.size] = v
+    return x
 
 
 def mk_str(text, kind):
@@ -282,6 +289,26 @@ def reassign(z, old, new):
     return True
 
 
+def bad_assign(z, pick):
+    """One invalid attribute assignment on z through a public setter; it must be refused (ValueError) -- and, as the caller goes on to use
+    the object, must have left it exactly as it was.  Returns the attribute name."""
+    from .core import Violation
+
+    table = [("sample_rate", -1 * u.Hz), ("sample_rate", 5.0), ("sample_rate", 3 * u.s), ("start_time", "not a time"),
+             ("start_time", Time([58000.0, 58001.0], format="mjd")), ("start_time", 5 * u.s), ("start_time", 59867.25),
+             ("center_freq", 5.0), ("center_freq", np.array([1.0, 2.0]) * u.Hz), ("center_freq", 1 * u.s),
+             ("chan_bw", -2 * u.MHz), ("chan_bw", 0 * u.Hz), ("chan_bw", 3 * u.s), ("chan_bw", np.array([1.0, 2.0]) * u.Hz),
+             ("freq_align", "middle"), ("freq_align", None), ("pol_type", "Circular"), ("pol_type", None), ("pol_type", "elliptical"),
+             ("meta", 5), ("meta", "abc")]
+    ok = [(a, v) for a, v in table if isinstance(getattr(type(z), a, None), property)]
+    attr, val = ok[pick % len(ok)]
+    try:
+        setattr(z, attr, val)
+    except ValueError:
+        return attr
+    raise Violation("assigning %s = %r to a %s was not refused" % (attr, val, type(z).__name__))
+
+
 class OneObject:
     """History driver: runs a sub-check's ordinary runner step after step either on freshly built signals (enabled=False) or on ONE signal
     object that is brought from each step's spec to the next through its public setters / in-place ufuncs."""
@@ -292,6 +319,8 @@ class OneObject:
         self.z = build(spec) if enabled else None
         self.spec = copy.deepcopy(spec)
         self.reused = 0
+        self.refusals = enabled == "refusals"  # also: a refused assignment before every step (must leave the object untouched)
+        self.count = 0
 
     def run(self, fn, cur, stt, key="sig"):
         import copy
@@ -302,6 +331,10 @@ class OneObject:
             else:
                 self.z = build(cur[key])
             self.spec = copy.deepcopy(cur[key])
+            if self.refusals:
+                self.count += 1
+                bad_assign(self.z, self.count * 7 + len(str(cur[key])))
+                stt.label("refused_assignment_before_call")
             pin(self.z)
         try:
             return fn(cur, stt)
